@@ -33,7 +33,12 @@
      The body is given a small environment semantics (`runMethod`): Python binds the caller's values
      to the parameters, every assignment rebinds a name, every read sees the latest binding.  A
      `def` with two parameters of one name, or with a parameter that is not an identifier, is a
-     SyntaxError when the client module is compiled (explicit error branch).
+     SyntaxError when the client module is compiled (explicit error branch).  The body also reads two
+     MODULE-level names: the function `gql` (client.py `_generate_gql_func`, `self._gql_func_name = "gql"`)
+     and the result class `<ReturnType>` (package.py `add_operation`: `str_to_pascal_case(operation name)`);
+     a parameter or local of that name shadows the global, and what the caller passed (an opaque value) is
+     called / asked for `.model_validate` instead: TypeError / AttributeError (explicit error branches).
+     Not modelled: custom scalars with `serialize` (the dict value is then `serialize(<name>)`; C03's business).
 
   B. the scope of a result CLASS whose fields come from several selection sources: own fields,
      inline fragments, unpacked fragment spreads, and fragments that become base classes.
@@ -97,6 +102,7 @@ def queryLocal : Name := "query".toList
 def variablesLocal : Name := "variables".toList
 def responseLocal : Name := "response".toList
 def dataLocal : Name := "data".toList
+def gqlName : Name := "gql".toList
 
 /-- one GraphQL variable of the operation -/
 structure Var where
@@ -146,6 +152,8 @@ inductive Val where
 inductive MethodErr where
   | syntaxError             -- duplicate argument / parameter that is not an identifier: the module does not compile
   | nameError (n : Name)    -- read of a name that is not bound (unreachable, see `runBody_ok`)
+  | notCallable (n : Name)  -- `gql(...)` where `gql` is a parameter: the caller's value is called (TypeError)
+  | noAttribute (n : Name)  -- `<ReturnType>.model_validate` where that name is a parameter / local (AttributeError)
   deriving DecidableEq, Repr
 
 abbrev Env := List (Name × Val)
@@ -174,9 +182,19 @@ structure Sent where
   variables : Val
   result : Val
 
-/-- the method body under the environment semantics (`sub` = subscription: no `response` local) -/
-def runBody (sub : Bool) (L : Locals) (wires ps : List Name) : Except MethodErr Sent :=
+/-- `<ReturnType>.model_validate(d)`: the class is a module global, unless the name is bound in the function -/
+def validateWith (env : Env) (ret : Name) (d : Val) : Except MethodErr Val :=
+  match env.lookup ret with
+  | some _ => .error (.noAttribute ret)
+  | none => .ok (.parsed d)
+
+/-- the method body under the environment semantics (`sub` = subscription: no `response` local;
+    `ret` = the name of the result class) -/
+def runBody (sub : Bool) (L : Locals) (ret : Name) (wires ps : List Name) : Except MethodErr Sent :=
   let env0 : Env := (selfName, .selfV) :: (bindArgs 0 ps ++ [(kwargsName, .kwargsV)])
+  match env0.lookup gqlName with
+  | some _ => .error (.notCallable gqlName)
+  | none =>
   let env1 : Env := (L.q, .text) :: env0
   match readAll env1 ps with
   | .error e => .error e
@@ -190,7 +208,10 @@ def runBody (sub : Bool) (L : Locals) (wires ps : List Name) : Except MethodErr 
         let env3 : Env := (L.d, .data (.resp q v)) :: env2
         match lookupVal env3 L.d with
         | .error e => .error e
-        | .ok d => .ok ⟨q, v, .parsed d⟩
+        | .ok d =>
+          match validateWith env3 ret d with
+          | .error e => .error e
+          | .ok p => .ok ⟨q, v, p⟩
       else
         let env3 : Env := (L.r, .resp q v) :: env2
         match lookupVal env3 L.r with
@@ -199,17 +220,20 @@ def runBody (sub : Bool) (L : Locals) (wires ps : List Name) : Except MethodErr 
           let env4 : Env := (L.d, .data r) :: env3
           match lookupVal env4 L.d with
           | .error e => .error e
-          | .ok d => .ok ⟨q, v, .parsed d⟩
+          | .ok d =>
+            match validateWith env4 ret d with
+            | .error e => .error e
+            | .ok p => .ok ⟨q, v, p⟩
 
 /-- does the `def` compile?  every parameter an identifier that is no keyword, no name twice -/
 def defCompiles (sn : Bool) (vars : List Var) : Bool :=
   (docParams sn vars).all (fun p => decide (OutOK (variableCfg sn) p)) &&
     decide ((selfName :: (docParams sn vars ++ [kwargsName])).Nodup)
 
-/-- a generated method, called with one value per variable -/
-def runMethod (sn sub : Bool) (vars : List Var) : Except MethodErr Sent :=
+/-- a generated method (result class `ret`), called with one value per variable -/
+def runMethod (sn sub : Bool) (ret : Name) (vars : List Var) : Except MethodErr Sent :=
   if defCompiles sn vars then
-    runBody sub (getVariableNames (argNames sn vars)) (vars.map (·.name)) (docParams sn vars)
+    runBody sub (getVariableNames (argNames sn vars)) ret (vars.map (·.name)) (docParams sn vars)
   else .error .syntaxError
 
 def argVals : Nat → Nat → List Val
@@ -227,13 +251,23 @@ def specSent (vars : List Var) : Sent :=
     duplicate argument, the client module does not compile. -/
 def trigSelfParam (sn : Bool) (vars : List Var) : Bool := (docParams sn vars).contains selfName
 
-/-- C18-F10: the same for `**kwargs` -/
+/-- C18-F11: the same for `**kwargs` -/
 def trigKwargsParam (sn : Bool) (vars : List Var) : Bool := (docParams sn vars).contains kwargsName
 
-/-- C18-F11: parameters `query` AND `_query` (only possible with snake-casing off): the helper local is
+/-- C18-F12: parameters `query` AND `_query` (only possible with snake-casing off): the helper local is
     renamed to `_query`, which is the other parameter; the operation text overwrites the caller's value. -/
 def trigQueryCapture (sn : Bool) (vars : List Var) : Bool :=
   (docParams sn vars).contains queryLocal && (docParams sn vars).contains ('_' :: queryLocal)
+
+/-- C18-F13: a parameter named like a module global the body reads: `gql`, or the result class -/
+def trigGlobalShadow (sn : Bool) (ret : Name) (vars : List Var) : Bool :=
+  (docParams sn vars).contains gqlName || (docParams sn vars).contains ret
+
+/-- the names a generated method fixes itself: its own parameters, the helper locals in both spellings, `gql` -/
+def fixedMethodNames : List Name :=
+  [selfName, kwargsName, gqlName,
+   queryLocal, '_' :: queryLocal, variablesLocal, '_' :: variablesLocal,
+   responseLocal, '_' :: responseLocal, dataLocal, '_' :: dataLocal]
 
 /-! ## B. The scope of a result class -/
 
